@@ -146,3 +146,13 @@ claim("C10", "Lean 4 proofs that the model is a function of the SET of facts/row
       NOTE_COMMON + " Not covered by theorems: CPython's hash function / set and dict iteration order and pandas row order themselves (not modelled; "
       "a seed-dependent fault that needs a seed outside those tried is not found); no map-congruence theorem for fDownConn, quantifiers and fInfer as "
       "a whole (ingredients proved).", "DESIGN.md §6 C10")
+claim("C19", "Lean 4 proof on a dual-number (forward-mode) model of val_clamp and the upward activations + exact autograd differential correspondence",
+      "Theorems C19_valClamp / C19_value_exact / C19_gradient_transparent (val_clamp x has value min(1,max(0,x)) and passes every tangent through "
+      "unchanged, saturated or not, for every tangent direction), C19_and / C19_or / C19_implies (the upward output has the clamped value and exactly "
+      "the tangent of the unclamped form w.r.t. weights, bias and inputs at once), C19_and_gradient (explicit entries: d/db = 1, d/dw_i = -(1-x_i), "
+      "d/dx_i = w_i). Tied to /repo: torch.autograd gradients of _utils.val_clamp on dyadic tensors in [-8,8] and of the upward activation of real "
+      "And/Or/Implies neuron objects w.r.t. bias, every weight and every input, compared exactly with the unclamped linear form and with the "
+      "model's tangents.",
+      NOTE_COMMON + " Modelled, not verified: autograd's own bookkeeping (the dual-number model is forward mode). The plain Lukasiewicz variant uses "
+      "torch.clamp by design and is compared on values only. The transparent Or's extra term -sum(min(w,0)) is identically 0 with zero derivative for "
+      "the positive weights generated (at w = 0 torch splits the subgradient; not exercised).", "DESIGN.md §6 C19")
